@@ -130,6 +130,22 @@ func rawCorpus(seed int64) [][]byte {
 			}
 		}
 	}
+	// values that are valid for one entry point and land at another: a map of any key / value types (valid for Skip and
+	// for a sibling struct) sitting under the field id where Base / BaseResp expect their map<string,string>; a string
+	// where they expect the map; a struct where ApplicationException expects its message
+	mrng := rand.New(rand.NewSource(seed + 77))
+	for _, kt := range []int8{2, 8, 11, 12} {
+		for _, vt := range []int8{2, 11} {
+			for _, cnt := range []int{1} {
+				m := comboContainer(mrng, 13, kt, vt, cnt)
+				body := m.b[:len(m.b)-1] // (comboContainer appends one trailing byte)
+				for _, id := range []byte{6, 3} {
+					out = append(out, append(append([]byte{13, 0, id}, body...), 0))
+				}
+			}
+		}
+	}
+	out = append(out, []byte{11, 0, 6, 0, 0, 0, 2, 'h', 'i', 0}, []byte{12, 0, 1, 8, 0, 1, 0, 0, 0, 5, 0, 0}, []byte{13, 0, 6, 2, 2, 0, 0, 0, 1, 1, 1, 0})
 	return out
 }
 
@@ -180,6 +196,9 @@ func rawMutSweep(c *Ctx) {
 		return true
 	}
 	for _, enc := range rawCorpus(c.Seed) {
+		if !check(enc) { // the corpus entry as it is (valid for one entry point, arbitrary for all the others)
+			return
+		}
 		for p := 0; p < len(enc) && p < maxOff; p++ {
 			if p+4 <= len(enc) {
 				for _, v := range hostile32 {
